@@ -18,6 +18,7 @@ ASSUMPTIONS = ["not decided: that every example in the manual and the shipped ex
                "panics inside external crates (yaml-rust); memory exhaustion from very large but finite pools",
                "reviewed entries (sa/spec/reviewed_entries.py) are hand-written reasons for constructs the engine cannot discharge; "
                "a new construct that is safe for a non-local reason is reported until reviewed"]
+EXPLANATION += '; also: V5 the lease-time bounds handed to the allocator are absent, constant or clamped; V6 no narrowing `as` on a configured number unless its range is known to fit'
 EXTRA_CONFIGS = ["dns", "dhcp", "radv"]
 
 LOADER = "erbium::config::load_config_from_string"
